@@ -115,3 +115,53 @@ Theorem C05_source_sse_addsub16 : forall p x0 x1 x2 x3 x4 x5 x6 x7 y0 y1 y2 y3 y
     [VecSem.mk16 (submod 16 p x0 y0) (submod 16 p x1 y1); VecSem.mk16 (submod 16 p x2 y2) (submod 16 p x3 y3); VecSem.mk16 (submod 16 p x4 y4) (submod 16 p x5 y5); VecSem.mk16 (submod 16 p x6 y6) (submod 16 p x7 y7)].
 Proof. exact GenVecEq.sse_addsub16. Qed.
 Print Assumptions C05_source_sse_addsub16.
+(* AVX2, 16-bit limbs (eight words = sixteen lanes), in two levels: for ANY register content the kernel is a per-word function
+   mapped over the register; on words mk16 lo hi of reduced lanes the per-word function is the scalar functor in both lanes *)
+Theorem C05_source_avx2_addsub16_words : forall p X Y, length X = 8%nat -> length Y = 8%nat ->
+  GenVec.gen_avx2_addmod_u16 p X Y = VecSem.map2 (GenVecEq.add16_word p) X Y /\ GenVec.gen_avx2_submod_u16 p X Y = VecSem.map2 (GenVecEq.sub16_word p) X Y.
+Proof. exact (fun p X Y HX HY => conj (GenVecEq.avx2_addmod16_words p X Y HX HY) (GenVecEq.avx2_submod16_words p X Y HX HY)). Qed.
+Print Assumptions C05_source_avx2_addsub16_words.
+Theorem C05_source_word16_addsub : forall p a b c d, 0 < p -> 2 * p <= 2 ^ 16 -> 0 <= a < p -> 0 <= b < p -> 0 <= c < p -> 0 <= d < p ->
+  GenVecEq.add16_word p (VecSem.mk16 a b) (VecSem.mk16 c d) = VecSem.mk16 (addmod 16 p a c) (addmod 16 p b d) /\
+  GenVecEq.sub16_word p (VecSem.mk16 a b) (VecSem.mk16 c d) = VecSem.mk16 (submod 16 p a c) (submod 16 p b d).
+Proof. exact (fun p a b c d Hp H2 Ha Hb Hc Hd => conj (GenVecEq.add16_word_lanes p a b c d Hp H2 Ha Hb Hc Hd) (GenVecEq.sub16_word_ok p a b c d Hp H2 Ha Hb Hc Hd)). Qed.
+Print Assumptions C05_source_word16_addsub.
+(* the 16-bit vector butterflies: SSE (4 words) and AVX2 (8 words) are the same per-word function, whose two lanes are the scalar lazy butterfly for ALL lane contents *)
+Theorem C05_source_butterfly16_words : forall p,
+  (forall A B I Wt, length A = 4%nat -> length B = 4%nat -> length I = 4%nat -> length Wt = 4%nat ->
+     GenVec.gen_sse_ntt_loop_body_u16 p A B I Wt = (map fst (GenVecEq.map4 (GenVecEq.bfly16_word p) A B I Wt), map snd (GenVecEq.map4 (GenVecEq.bfly16_word p) A B I Wt))) /\
+  (forall A B I Wt, length A = 8%nat -> length B = 8%nat -> length I = 8%nat -> length Wt = 8%nat ->
+     GenVec.gen_avx2_ntt_loop_body_u16 p A B I Wt = (map fst (GenVecEq.map4 (GenVecEq.bfly16_word p) A B I Wt), map snd (GenVecEq.map4 (GenVecEq.bfly16_word p) A B I Wt))).
+Proof. exact (fun p => conj (GenVecEq.sse_bfly16_words p) (GenVecEq.avx2_bfly16_words p)). Qed.
+Print Assumptions C05_source_butterfly16_words.
+Theorem C05_source_word16_butterfly : forall p a a' b b' i i' w w', 0 < p -> 4 * p <= 2 ^ 16 ->
+  0 <= a < 2 ^ 16 -> 0 <= a' < 2 ^ 16 -> 0 <= b < 2 ^ 16 -> 0 <= b' < 2 ^ 16 -> 0 <= i < 2 ^ 16 -> 0 <= i' < 2 ^ 16 -> 0 <= w < 2 ^ 16 -> 0 <= w' < 2 ^ 16 ->
+  GenVecEq.bfly16_word p (VecSem.mk16 a a') (VecSem.mk16 b b') (VecSem.mk16 i i') (VecSem.mk16 w w') =
+  (VecSem.mk16 (fst (lane_bfly 16 p w i a b)) (fst (lane_bfly 16 p w' i' a' b')), VecSem.mk16 (snd (lane_bfly 16 p w i a b)) (snd (lane_bfly 16 p w' i' a' b'))).
+Proof. exact GenVecEq.bfly16_word_lanes. Qed.
+Print Assumptions C05_source_word16_butterfly.
+(* mulmod_shoup / muladd_shoup <uint16_t>: mulhi_epu16, widening (cvtepu16, the 8-byte shift on SSE; cvtepu16 of the whole register,
+   permute2x128 and castsi256_si128 on AVX2), 32-bit lane arithmetic with the signed compare, packus with its saturation -- the translated
+   kernels give lane_mulshoup16 / lane_muladdshoup16 (= the scalar functors on reduced operands, the C05_lane theorems) in all eight lanes, in order *)
+Theorem C05_source_sse_shoup16 : forall p r0 r1 r2 r3 r4 r5 r6 r7 x0 x1 x2 x3 x4 x5 x6 x7 y0 y1 y2 y3 y4 y5 y6 y7 z0 z1 z2 z3 z4 z5 z6 z7, 0 < p < 2 ^ 31 ->
+  Forall (fun v => 0 <= v < 65536) [r0; r1; r2; r3; r4; r5; r6; r7; x0; x1; x2; x3; x4; x5; x6; x7; y0; y1; y2; y3; y4; y5; y6; y7; z0; z1; z2; z3; z4; z5; z6; z7] ->
+  let m := VecSem.mk16 in
+  GenVec.gen_sse_mulmod_shoup_u16 p [m x0 x1; m x2 x3; m x4 x5; m x6 x7] [m y0 y1; m y2 y3; m y4 y5; m y6 y7] [m z0 z1; m z2 z3; m z4 z5; m z6 z7] =
+    [m (lane_mulshoup16 p x0 y0 z0) (lane_mulshoup16 p x1 y1 z1); m (lane_mulshoup16 p x2 y2 z2) (lane_mulshoup16 p x3 y3 z3);
+     m (lane_mulshoup16 p x4 y4 z4) (lane_mulshoup16 p x5 y5 z5); m (lane_mulshoup16 p x6 y6 z6) (lane_mulshoup16 p x7 y7 z7)] /\
+  GenVec.gen_sse_muladd_shoup_u16 p [m r0 r1; m r2 r3; m r4 r5; m r6 r7] [m x0 x1; m x2 x3; m x4 x5; m x6 x7] [m y0 y1; m y2 y3; m y4 y5; m y6 y7] [m z0 z1; m z2 z3; m z4 z5; m z6 z7] =
+    [m (lane_muladdshoup16 p r0 x0 y0 z0) (lane_muladdshoup16 p r1 x1 y1 z1); m (lane_muladdshoup16 p r2 x2 y2 z2) (lane_muladdshoup16 p r3 x3 y3 z3);
+     m (lane_muladdshoup16 p r4 x4 y4 z4) (lane_muladdshoup16 p r5 x5 y5 z5); m (lane_muladdshoup16 p r6 x6 y6 z6) (lane_muladdshoup16 p r7 x7 y7 z7)].
+Proof. exact GenVecEq.sse_shoup16. Qed.
+Print Assumptions C05_source_sse_shoup16.
+Theorem C05_source_avx2_shoup16 : forall p r0 r1 r2 r3 r4 r5 r6 r7 x0 x1 x2 x3 x4 x5 x6 x7 y0 y1 y2 y3 y4 y5 y6 y7 z0 z1 z2 z3 z4 z5 z6 z7, 0 < p < 2 ^ 31 ->
+  Forall (fun v => 0 <= v < 65536) [r0; r1; r2; r3; r4; r5; r6; r7; x0; x1; x2; x3; x4; x5; x6; x7; y0; y1; y2; y3; y4; y5; y6; y7; z0; z1; z2; z3; z4; z5; z6; z7] ->
+  let m := VecSem.mk16 in
+  GenVec.gen_avx2_mulmod_shoup_u16 p [m x0 x1; m x2 x3; m x4 x5; m x6 x7] [m y0 y1; m y2 y3; m y4 y5; m y6 y7] [m z0 z1; m z2 z3; m z4 z5; m z6 z7] =
+    [m (lane_mulshoup16 p x0 y0 z0) (lane_mulshoup16 p x1 y1 z1); m (lane_mulshoup16 p x2 y2 z2) (lane_mulshoup16 p x3 y3 z3);
+     m (lane_mulshoup16 p x4 y4 z4) (lane_mulshoup16 p x5 y5 z5); m (lane_mulshoup16 p x6 y6 z6) (lane_mulshoup16 p x7 y7 z7)] /\
+  GenVec.gen_avx2_muladd_shoup_u16 p [m r0 r1; m r2 r3; m r4 r5; m r6 r7] [m x0 x1; m x2 x3; m x4 x5; m x6 x7] [m y0 y1; m y2 y3; m y4 y5; m y6 y7] [m z0 z1; m z2 z3; m z4 z5; m z6 z7] =
+    [m (lane_muladdshoup16 p r0 x0 y0 z0) (lane_muladdshoup16 p r1 x1 y1 z1); m (lane_muladdshoup16 p r2 x2 y2 z2) (lane_muladdshoup16 p r3 x3 y3 z3);
+     m (lane_muladdshoup16 p r4 x4 y4 z4) (lane_muladdshoup16 p r5 x5 y5 z5); m (lane_muladdshoup16 p r6 x6 y6 z6) (lane_muladdshoup16 p r7 x7 y7 z7)].
+Proof. exact GenVecEq.avx2_shoup16. Qed.
+Print Assumptions C05_source_avx2_shoup16.
